@@ -4,6 +4,7 @@ import (
 	"fmt"
 	"regexp"
 	"strings"
+	"unicode/utf8"
 
 	"verif/harness/core"
 	"verif/harness/sx"
@@ -222,4 +223,74 @@ func genCase(g *core.G) {
 			g.Emit("hist (tree (p -1) (p 0) (p 1)) (steps " + a + " " + b + ")")
 		}
 	}
+}
+
+// execLfor: `C12 lfor ((xMOD N)*) xNAME` — px.NewDependencyLoader over fresh module loaders labelled N, then
+// LoaderFor(NAME) → mod N | nil.  Direct predicate: the answer is a module of that (non-empty) name, if there is one.
+func execLfor(args []sx.Sexp) (res core.Result) {
+	defer func() {
+		if e := recover(); e != nil {
+			if _, ok := e.(bad); ok {
+				res = core.Result{Out: "bad-op", Pred: "n/a"}
+				return
+			}
+			panic(e)
+		}
+	}()
+	must(len(args) == 2 && args[0].IsList, "shape")
+	var mls []px.ModuleLoader
+	var labels []int64
+	var names []string
+	for _, m := range args[0].List {
+		must(m.IsList && len(m.List) == 2, "module")
+		b, err := m.List[0].AsBytes()
+		must(err == nil && utf8.Valid(b), "module name")
+		l, err := m.List[1].AsInt()
+		must(err == nil && l >= 0, "module label")
+		mls = append(mls, &modLoader{px.NewParentedLoader(px.StaticLoader()), string(b)})
+		labels = append(labels, l)
+		names = append(names, string(b))
+	}
+	nb, err := args[1].AsBytes()
+	must(err == nil && utf8.Valid(nb), "name")
+	d, ok := px.NewDependencyLoader(mls).(px.DependencyLoader)
+	must(ok, "not a DependencyLoader")
+	var got px.ModuleLoader
+	if r := safely(func() { got = d.LoaderFor(string(nb)) }); r != "" {
+		return core.Result{Out: r, Pred: "FAIL fault LoaderFor crashed", NonTrivial: true}
+	}
+	out, pred := "nil", "ok"
+	exists := false
+	for _, n := range names {
+		exists = exists || (n == string(nb) && n != "")
+	}
+	if got != nil {
+		for i, ml := range mls {
+			if ml == got {
+				out = fmt.Sprintf("mod %d", labels[i])
+			}
+		}
+		if got.ModuleName() != string(nb) || !exists {
+			pred = "FAIL loader-for LoaderFor answered a module of another name"
+		}
+	} else if exists {
+		pred = "FAIL loader-for LoaderFor found no module although one has that name"
+	}
+	return core.Result{Out: out, Pred: pred, NonTrivial: len(mls) > 1, Tags: []string{"lfor"}}
+}
+
+func genLfor(g *core.G) {
+	ns := []string{"x6d", "x6e", "x", "x4d"}
+	for _, a := range ns {
+		for _, b := range ns {
+			for _, c := range ns {
+				for _, q := range ns {
+					g.Emit(fmt.Sprintf("lfor ((%s 0) (%s 1) (%s 2)) %s", a, b, c, q))
+				}
+			}
+		}
+		g.Emit(fmt.Sprintf("lfor () %s", a))
+	}
+	g.Emit("lfor")
+	g.Emit("lfor ((x6d)) x6d")
 }
